@@ -844,6 +844,21 @@ func (w *world) wedged() bool {
 	return false
 }
 
+// wedgedForGood is what the waiting loops ask before their bound has passed: the
+// loop was already seen (sticky, nothing that follows is judged against the
+// bound), or a running member is at fifty or more restores in a row right now.
+func (w *world) wedgedForGood() bool {
+	if w.wedgedSeen {
+		return true
+	}
+	for _, n := range w.cur {
+		if n != nil && n.alive && n.store != nil && n.store.Consecutive() >= 50 {
+			return w.wedged()
+		}
+	}
+	return false
+}
+
 // calm: no partition and every member is up.
 func (w *world) calm() bool {
 	if w.faultsActive != 0 {
@@ -926,12 +941,14 @@ func execC17(plan *simkit.Plan, run *simkit.Run) {
 			panic(err)
 		}
 		run.Step()
+		run.AbandonIfWallOver()
 		w.step(s)
 		if run.Violated() {
 			return
 		}
 	}
 	w.drain()
+	run.AbandonIfWallOver()
 	if w.hungCalls > 0 && w.raftBroken() {
 		run.Probe("plan_ended_raft_broken_and_calls_hang")
 		panic(simkit.EndPlan{Why: "Raft is broken and calls hang"})
@@ -1831,9 +1848,12 @@ func (w *world) agreement(what string, bound time.Duration) {
 			w.run.Probe("agreement_checked")
 			return
 		}
-		if time.Now().After(deadline) {
+		if time.Now().After(deadline) || w.wedgedForGood() {
+			// (once the snapshot-install loop has been seen the disagreement is not
+			// judged, see below: the bound is not waited out inside the loop)
 			break
 		}
+		w.run.AbandonIfWallOver()
 		sleep(500 * time.Millisecond)
 		w.judgeReady()
 	}
@@ -2008,6 +2028,12 @@ func (w *world) finale() {
 			if (ret && err == nil) || time.Now().After(deadline) {
 				break
 			}
+			if w.wedgedForGood() {
+				// not judged below whatever the remaining attempts bring, and every
+				// simulated second in the snapshot-install loop is hundreds of restores
+				break
+			}
+			run.AbandonIfWallOver()
 			run.Probe("final_write_retried")
 			sleep(2 * time.Second)
 		}
@@ -2054,6 +2080,13 @@ func (w *world) finale() {
 		if len(missing) == 0 {
 			return
 		}
+		if w.wedgedForGood() {
+			// the clause below is not judged once the loop has been seen (the mark
+			// is sticky): waiting out the bound inside the loop decides nothing
+			run.Probe("not_judged_raft_wedged")
+			return
+		}
+		run.AbandonIfWallOver()
 		if time.Now().After(deadline) {
 			sort.Slice(missing, func(i, j int) bool {
 				if missing[i].who != missing[j].who {
